@@ -135,3 +135,37 @@ def dict_literal_keys(node: ast.AST) -> dict[str, ast.AST] | None:
     if isinstance(node, ast.Dict) and all(isinstance(k, ast.Constant) and isinstance(k.value, str) for k in node.keys):
         return {k.value: v for k, v in zip(node.keys, node.values)}
     return None
+
+
+# ---------------------------------------------------------------------------
+# the selected range length  L = (header.nsamples - start) if nsamps is None else nsamps
+# ---------------------------------------------------------------------------
+def _is_range_len(node: ast.IfExp, start: str = "start", nsamps: str = "nsamps") -> bool:
+    from .poly import Poly, PolyEnv
+    t = node.test
+    if not (isinstance(t, ast.Compare) and len(t.ops) == 1 and isinstance(t.left, ast.Name) and t.left.id == nsamps
+            and isinstance(t.comparators[0], ast.Constant) and t.comparators[0].value is None):
+        return False
+    if isinstance(t.ops[0], ast.Is):
+        none_branch, val_branch = node.body, node.orelse
+    elif isinstance(t.ops[0], ast.IsNot):
+        none_branch, val_branch = node.orelse, node.body
+    else:
+        return False
+    if not (isinstance(val_branch, ast.Name) and val_branch.id == nsamps):
+        return False
+    env = PolyEnv()
+    return env.poly(none_branch) == Poly.sym("self.header.nsamples") - Poly.sym(start)
+
+
+class _RangeLen(ast.NodeTransformer):
+    def visit_IfExp(self, node: ast.IfExp):  # noqa: N802
+        self.generic_visit(node)
+        if _is_range_len(node):
+            return ast.copy_location(ast.Name(id="RANGE_LEN", ctx=ast.Load()), node)
+        return node
+
+
+def with_range_len(expr: ast.AST) -> ast.AST:
+    """Replace the canonical range-length conditional by the symbol RANGE_LEN (on an expanded copy)."""
+    return ast.fix_missing_locations(_RangeLen().visit(expr))
